@@ -3,11 +3,16 @@
 import json, os
 V = os.path.dirname(os.path.dirname(os.path.abspath(__file__)))
 
-TECH = 'bounded symbolic execution of the real maltoolbox modules with CrossHair 0.0.110 / z3: per-path SMT feasibility decisions over symbolic bool/int/real inputs, cube-split over 16 cores, "Confirmed over all paths" per cube; counterexamples replayed on the real code'
+TECH_SYM = 'bounded symbolic execution of the real maltoolbox modules with CrossHair 0.0.110 / z3: per-path SMT feasibility decisions over symbolic bool/int/real inputs, cube-split over 16 cores, "Confirmed over all paths" per cube; counterexamples replayed on the real code'
 
 def _c(text, note, ref):
     return (text, note, ref)
 
+
+TECH_ENUM = 'CrossHair 0.0.110 / z3 bounded model checking of the real code: the input structure (model, history, program) is a vector of symbolic bool/int choices with solver-checked preconditions; z3 decides every branch on them, each feasible path drives the real maltoolbox code on the induced input and is compared with a reference model; cubes run on 16 cores to "Confirmed over all paths"; counterexamples are replayed on the real code'
+TECH = {k: TECH_SYM for k in ('C06', 'C08', 'C10', 'C11', 'C12', 'C13', 'C14')}
+TECH['C04'] = TECH_ENUM + '; _post_process_multitudes executed on symbolic strings'
+TECH['C16'] = TECH_ENUM + '; PYTHONHASHSEED clause by enumerated configurations'
 
 CLAIMED = {
  'C01': _c('Every link matrix over two relations on 2 assets and every bounded one on 3 assets (self-links, cycles, shared members) is decided by the solver; on each the real Model API builds the model, the real generator runs and the children/parents of every node are compared with a reference evaluator of MAL set semantics over ~40 catalogued expressions (transitive only bounded from both sides).',
@@ -28,8 +33,20 @@ CLAIMED = {
            'Trusted: CrossHair/z3, xh/g.py:wellformed.', '4/C09'),
  'C10': _c('Hand-built graphs with attribute picks, symbolic flags, two attackers, optional pruning and a generated graph (with/without model) are saved as json/yml/yaml, loaded and compared field by field with types.',
            'Trusted: CrossHair/z3, json/yaml libraries. One known finding (attackers keyed by name) is excluded by predicate and reported.', '4/C10'),
+ 'C04': _c('The solver decides a bounded program skeleton (one construct family at a time: 59-expression catalogue in reaches/let/requires, 18 TTC expressions, 8x8 multiplicity forms, step attributes, asset/category options, 5 include layouts); each program is printed as MAL text, compiled by the real compiler and compared with the specification it was printed from. _post_process_multitudes is executed on symbolic strings. The printer is validated on every run by round-tripping the coreLang .mar fixtures.',
+           'Trusted: CrossHair/z3, the printer xh/malprint.py (validated on coreLang), ANTLR runtime. Weakest use of the technique: lexer/parser/visitor run on concrete text; only the choice space and the multiplicity post-processing are solver-decided.', '4/C04'),
  'C11': _c('Every compromise relation over 3 nodes x 2 attackers (built through the API) followed by every 1 (quick) / 2 (thorough) operations is executed symbolically on the real Attacker/AttackGraphNode/AttackGraph code and compared with a shadow relation; exhaustive within that bound.',
            'Trusted: CrossHair/z3, the shadow-relation oracle (xh/h_c11.py). Outside: larger graphs, longer histories.', '4/C11'),
+ 'C15': _c('Language graphs of three language families (12x4 L_INH variants, L_UNI with set operators over sibling types, L_SET) are compared with the declarations: assets, super/sub links, subtype closure, per-asset associations, association lookup in both orientations for every pair of subtypes, mirrored step links; five ill-formed variants must raise; for 4-asset models with every subset of 5 links each attack-graph edge must be predicted by a language-graph link.',
+           'Trusted: CrossHair/z3, reference fold. Dependency chains attached to links are not observed.', '4/C15'),
+ 'C16': _c('For every 3-asset L_INH model of the C02 bound: generate+attach+analyse twice in one process (equal serialisation, inputs unchanged, no shared node) and through create_attack_graph from .mar+json and .mal+yml files. Hash seeds: the same generation in fresh interpreters under 3 (quick) / 5 (thorough) PYTHONHASHSEED values - an enumerated configuration, not solver-decided.',
+           'Trusted: CrossHair/z3; the .mal route relies on xh/malprint.py. PYTHONHASHSEED cannot be symbolic.', '4/C16'),
+ 'C17': _c('Token-level: every lexeme sequence of length <= 2 (quick) / 3 (thorough) over a 21-lexeme alphabet and every single-token deletion / insertion / substitution / truncation of a valid program, as root file, included file and nested include; whenever the grammar\'s own lexer/parser report an error to a counting listener, compile() must raise.',
+           'Trusted: CrossHair/z3, the generated ANTLR lexer/parser as oracle (as the property states). Character-level symbolic text through the ATN simulator is out of reach (2 symbolic characters do not exhaust in 600 s).', '4/C17'),
+ 'C18': _c('3-asset L_INH models (ids incl. 0 and negative, defenses, links incl. duplicate-named classes and several members per field, attacker with up to 4 entry points incl. two on one asset) are emitted by inverse translators in the 0.0.39 layout (2 variants x json/yml/yaml) and as .sCAD archives (2 orientations) and loaded by the legacy loaders; assets, pairwise links and entry points are compared with the natively saved and loaded model.',
+           'Trusted: CrossHair/z3, the inverse translators in xh/h_c18.py (my reading of the legacy formats; .eom element names follow the repository fixture).', '4/C18'),
+ 'C19': _c('Models and attack graphs are ingested into a recording stand-in for py2neo.Graph: nodes/relationships are compared with assets/linked pairs/attack steps/edges; get_model reads the ingested model back with result rows in every asset permutation and rotated/reversed relationship order (symbolic picks) and must reconstruct the same assets and links.',
+           'Trusted: CrossHair/z3, the Cypher semantics modelled for the two fixed queries.', '4/C19'),
  'C12': _c('Traversability: one node of every type with symbolic viability and k<=3/4 parents with symbolic necessity/compromise bits (covers graphs of any size if the function reads only node+parents, which the global harness checks); surface, incremental update and graph immutability on all 2-node (3-node thorough) graphs; defense surface with symbolic real status.',
            'Trusted: CrossHair/z3, the definitional oracle in xh/h_c12.py.', '4/C12'),
  'C13': _c('All labelled graphs of 3 nodes (types x symbolic flags x bounded edge sets) and, thorough, 4 nodes are pruned by the real code under symbolic execution; survivors, labels and C09 well-formedness are compared with the definition; one attacker variant.',
@@ -56,9 +73,9 @@ def main():
             'engine': 'xh',
             'level_claimed': {'category': 'model_checking', 'text': text, 'design_ref': 'DESIGN.md §' + ref},
             'level_note': note,
-            'technique': TECH,
+            'technique': TECH.get(i, TECH_ENUM),
         })
-    na = [{'property_id': p['id'], 'reason': NOT_APPLICABLE.get(p['id'], 'check not built yet (work in progress); see DESIGN.md §4')}
+    na = [{'property_id': p['id'], 'reason': NOT_APPLICABLE.get(p['id'], 'not claimed')}
           for p in props if p['id'] not in CLAIMED]
     m = {
         'version': 1,
